@@ -17,7 +17,7 @@ Optional(h) == h \in {"max", "min", "mode", "first", "last", "nth"}
 SpecOf(h, kind) == <<Kernel(h), IF h \in {"all", "any"} THEN "bool" ELSE IF h = "quantile" THEN "float" ELSE kind>>
 
 (* each dtype a helper accepts (others are not generated) *)
-Accepts(h, kind) == kind \in {"bool", "int", "float"} \/ h \in {"count", "count_unique", "first", "last", "nth", "mode", "min", "max"}
+Accepts(h, kind) == kind \in {"bool", "int", "float", "float32"} \/ h \in {"count", "count_unique", "first", "last", "nth", "mode", "min", "max"}
 
 (* state: mem = specialisations in this interpreter; disk = on-disk cache; cacheOn fixed per process.
    Layer 2 (JitMech, a named deviation - see KF-C08-optional-order): compiling the max/min kernel
